@@ -426,3 +426,97 @@ func VerifHarness_C11_OverVector() {
 	vsymAssert(n == 2 && it.Err() == nil, "one value per step")
 	vsymReach("C11_over_vector")
 }
+
+// C09-O3: range functions by value.  A window of 1..3 points with values from
+// a pool and a range from a pool that includes fractional seconds goes through
+// the aggregator that build() would choose; the value must be the function's
+// definition (rates divide by the range in seconds, fractional part included).
+func verifC09Values(maxN int) {
+	pool := []float64{1, 2.5, 4, 0.1, -3, 1e9 + 1}
+	ranges := []time.Duration{1500 * time.Millisecond, 2 * time.Second, 500 * time.Millisecond, 750 * time.Millisecond, time.Minute, 2500 * time.Millisecond}
+	n := 1 + vsymChoice("n", maxN)
+	var pts []FPoint
+	var vs []float64
+	for i := 0; i < n; i++ {
+		v := pool[vsymChoice("value", len(pool))]
+		vs = append(vs, v)
+		pts = append(pts, FPoint{Timestamp: otelstorageTS(1000 + i), Value: v})
+	}
+	rng := ranges[vsymChoice("range", len(ranges))]
+	secs := float64(rng) / 1e9
+	sum, min, max := 0.0, vs[0], vs[0]
+	for _, v := range vs {
+		sum += v
+		if v < min {
+			min = v
+		}
+		if v > max {
+			max = v
+		}
+	}
+	mean := sum / float64(n)
+	variance := 0.0
+	for _, v := range vs {
+		variance += (v - mean) * (v - mean)
+	}
+	variance /= float64(n)
+	close := func(got, want float64) bool {
+		d := got - want
+		if d < 0 {
+			d = -d
+		}
+		scale := want
+		if scale < 0 {
+			scale = -scale
+		}
+		if scale < 1 {
+			scale = 1
+		}
+		return d <= 1e-6*scale
+	}
+	ops := []logql.RangeOp{logql.RangeOpCount, logql.RangeOpRate, logql.RangeOpBytes, logql.RangeOpBytesRate, logql.RangeOpSum,
+		logql.RangeOpAvg, logql.RangeOpMin, logql.RangeOpMax, logql.RangeOpFirst, logql.RangeOpLast, logql.RangeOpStdvar, logql.RangeOpStddev}
+	op := ops[vsymChoice("op", len(ops))]
+	expr := &logql.RangeAggregationExpr{Op: op}
+	expr.Range.Range = rng
+	unwrapped := false
+	if op == logql.RangeOpRate && vsymBool("unwrap") {
+		expr.Range.Unwrap = &logql.UnwrapExpr{Label: "v"}
+		unwrapped = true
+	}
+	agg, err := buildBatchAggregator(expr)
+	vsymAssert(err == nil, "the range function has an aggregator")
+	got := agg.Aggregate(pts)
+	switch op {
+	case logql.RangeOpCount:
+		vsymAssert(got == float64(n), "count_over_time counts the samples of the window")
+	case logql.RangeOpRate:
+		if unwrapped {
+			vsymAssert(close(got, sum/secs), "rate over unwrapped values is their sum per second of the range")
+		} else {
+			vsymAssert(close(got, float64(n)/secs), "rate is the number of samples per second of the range")
+		}
+	case logql.RangeOpBytes, logql.RangeOpSum:
+		vsymAssert(close(got, sum), "sum_over_time / bytes_over_time sum the samples")
+	case logql.RangeOpBytesRate:
+		vsymAssert(close(got, sum/secs), "bytes_rate is the number of bytes per second of the range")
+	case logql.RangeOpAvg:
+		vsymAssert(close(got, mean), "avg_over_time is the mean")
+	case logql.RangeOpMin:
+		vsymAssert(got == min, "min_over_time is the smallest sample")
+	case logql.RangeOpMax:
+		vsymAssert(got == max, "max_over_time is the largest sample")
+	case logql.RangeOpFirst:
+		vsymAssert(got == vs[0], "first_over_time is the earliest sample")
+	case logql.RangeOpLast:
+		vsymAssert(got == vs[n-1], "last_over_time is the latest sample")
+	case logql.RangeOpStdvar:
+		vsymAssert(got >= 0 && close(got, variance), "stdvar_over_time is the mean squared deviation")
+	default:
+		vsymAssert(got == got && got >= 0 && close(got*got, variance), "stddev_over_time is the square root of the variance")
+	}
+	vsymReach("C09_values")
+}
+
+func VerifHarness_C09_Values_2() { verifC09Values(2) }
+func VerifHarness_C09_Values_3() { verifC09Values(3) }
